@@ -76,6 +76,12 @@ class ValCheck(PtgCheck):
             # a hang is an observation, but on a heavily loaded machine a run of 16 spinning threads can exceed the
             # limit without being stuck: it only counts when it happens again with twice the time
             rc, o, e = run([exe] + ptg_common.config_args(cfg, seed), timeout=2 * self.run_timeout, env=env, cwd=os.path.dirname(exe))
+        if rc not in (0, 124) or "END rc=signal-" in o:
+            # a crash is an observation as well; it counts when it happens again on a second run of the same configuration
+            rc2, o2, e2 = run([exe] + ptg_common.config_args(cfg, seed), timeout=self.run_timeout, env=env, cwd=os.path.dirname(exe))
+            if rc2 == 0 and "END rc=0" in o2:
+                vcheck.log("%s: %s %s crashed once (rc=%d) and completed when run again" % (self.id, exe, cfg, rc))
+                rc, o, e = rc2, o2, e2
         ents, info = ptg_common.parse_log(o)
         # startup tasks in creation order (driver lines SU, only with -DPTG_RT_TRACE_STARTUP)
         info["startup"] = [(m.group(1), tuple(int(x) for x in m.group(2).split()))
@@ -93,6 +99,8 @@ class ValCheck(PtgCheck):
             info["end"] = "timeout"
         elif rc != 0 and (info["end"] is None or info["end"] == "rc=0"):
             info["end"] = "crash-rc=%d" % rc
+        elif info["end"] is not None and info["end"].startswith("rc=signal-"):
+            info["end"] = "crash-" + info["end"][3:]          # the driver's handler dumped the log before dying
         elif info["end"] is None:
             info["end"] = "no-END"
         if info["end"] != "rc=0":
@@ -209,12 +217,14 @@ class C02(ValCheck):
                   "bodies read one are not run.")
     technique = ("Coq invariant proof over all schedules of a dataflow engine with shared data copies + observation-differential runs "
                  "of generated JDF programs (two ptgpp dependency back-ends) against the extracted sequential execution")
-    rule = ("hazard-free programs from the DAG templates (wbforms, overlap, chain, fan, bcast_gather, diamond, split_merge, pipeline2d, tri, mixed, "
+    rule = ("hazard-free programs from the DAG templates (shrink, wbforms, overlap, chain, fan, bcast_gather, diamond, split_merge, pipeline2d, tri, mixed, "
             "bcast_read, relay): data flows with OVERLAPPING input guards (a guarded task dependency followed by an unguarded or "
             "weaker-guarded D(..) fallback: first match wins) next to a second task-fed flow, in-place RW chains from D(k), NEW tiles broadcast to READ consumers, ternary/guarded inputs, control "
             "gathers ordering a reader before an overwriter, final write-backs into an element other than the one the copy came from in "
             "every spelling (unconditional, binary guard, ternary with the element on the true side, ternary with the element on the false "
-            "side next to a successor task; guards true and false over the instances; copies from D(a), forwarded, or NEW); each under 4 configurations scheduler[@ia]:threads covering "
+            "side next to a successor task; guards true and false over the instances; copies from D(a), forwarded, or NEW); 3/4-parameter execution spaces whose middle parameter's bound shrinks or grows "
+            "with the outer one, consumers gated by a control barrier so that they fetch their input from the repository while all the "
+            "producers of the class are alive (keys must separate them); each under 4 configurations scheduler[@ia]:threads covering "
             "both back-ends and threads 1,2,4,16, schedulers rotated; non-trivial = at least 2 instances, 1 data edge between tasks; "
             "distinct = program text")
     trusted = ("tools/jdfgen.py (JDF and model printers of one structure), harness/ptg_driver.c + ptg_rt.h (log of values and stamps), "
@@ -392,6 +402,7 @@ class C02(ValCheck):
         d["rw_from_collection"] = d["new_tiles"] = d["writebacks"] = d["data_edges"] = 0
         d["programs_with_overlapping_input_guards"] = d["flow_instances_with_overlapping_input_guards"] = 0
         d["writeback_spellings"] = {}
+        d["classes_with_dependent_middle_bound"] = {"shrinking": 0, "growing": 0}
         for c in cases:
             try:
                 hd, pt = c.split("|", 1)
@@ -401,6 +412,8 @@ class C02(ValCheck):
             for cf in hd.split()[1:]:
                 d["backends"][split_cfg(cf)[0]] += 1
             sem = pv.Sem(p)
+            for k, v in pv.space_shapes(p).items():
+                d["classes_with_dependent_middle_bound"][k] += v
             for k, v in pv.writeback_forms(p).items():
                 d["writeback_spellings"][k] = d["writeback_spellings"].get(k, 0) + v
             ov = pv.overlapping_flows(p)
